@@ -75,6 +75,16 @@ def make_job(ctx, proto, workers, seed, ndata):
             if tuple(m) not in seen and len(m) <= 1500:
                 seen.add(tuple(m))
                 data.append({"exp": exps[len(data) % 4], "buf": m})
+    poison = []
+    if proto in ("ipfix", "netflow9"):
+        # some datagrams arrive cut short (the IPFIX header still announces the full length); behind every datagram the
+        # recycled buffer holds octets that would decode as further data sets of template 256
+        for k, dg in enumerate(list(data)):
+            if k % 7 == 3 and len(dg["buf"]) > 40:
+                data.append({"exp": dg["exp"], "buf": dg["buf"][:rng.randrange(20, len(dg["buf"]) - 1)]})
+        poison = [1, 0, 0, 68] + [65] * 64
+    elif proto == "netflow5":
+        poison = [7] * 48
     rng.shuffle(data)
     # distinct datagrams only (they are recognised by content)
     uniq, out = set(), []
@@ -83,7 +93,7 @@ def make_job(ctx, proto, workers, seed, ndata):
             uniq.add(tuple(dgm["buf"]))
             out.append(dgm)
     return {"proto": proto, "workers": workers, "seed": seed, "udpsize": 1500, "templates": tpl, "data": out[:ndata],
-            "lazy": rng.choice([1, 3, 8, 40])}
+            "lazy": rng.choice([1, 3, 8, 40]), "poison": poison}
 
 
 def run_job(ctx, drv, job, tag):
